@@ -98,6 +98,18 @@ def run(ctx):
         fx = fx_of(ctx, STREAM, cls)
         sets = [a for a in fx.find(domain="sync", target="strobe_all") if a.v == "1"]
         ctx.ob("S3", STREAM, cls, "strobe_all set:present", bool(sets), "strobe_all is never set", 0)
+        # the lane counter restarts with every completed word (also one closed early by `last`): set of strobe_all => demux <= 0
+        zs = [a for a in fx.find(domain="sync", target="demux") if a.v == "0"]
+        Gz = B.F
+        for a in zs:
+            Gz = B.Or(Gz, q.gformula(fx, a))
+        for a in sets:
+            Gs = q.gformula(fx, a)
+            ok = bool(zs) and B.entails(Gs, Gz)
+            ctx.ob("S3", STREAM, cls, "word completion restarts the lane counter", ok,
+                   "" if ok else f"strobe_all is set under {short(B.show(Gs))} but demux returns to 0 only under {short(B.show(Gz))}: after a word closed "
+                                 f"early by `last` the next word starts filling at a stale lane (tokens misplaced, word strobed too early); e.g. "
+                                 f"{B.counterexample(Gs, Gz)}", a.line)
         for a in sets:
             # a word that completes is presented even when the previous word is handed over in the same cycle: the set is not
             # overridden by the clear (written guard = effective guard)
@@ -281,7 +293,7 @@ def _s10(ctx):
           norm(n.value).startswith("buf.")}
     ok = ok and al == {"self.sink": "buf.sink", "self.source": "buf.source"}
     ctx.ob("S10", STREAM, "SyncFIFO", "depth 1: a Buffer whose sink/source are exposed", ok, "" if ok else f"{al}")
-    f2 = [i for i in fx.insts if i.name == "self.fifo" and ("depth >= 2", True) in i.pyguards]
+    f2 = [i for i in fx.insts if i.name == "self.fifo" and ("2 <= depth", True) in i.pyguards]
     ok = len(f2) == 1
     ctx.ob("S10", STREAM, "SyncFIFO", "depth >= 2: Migen FIFO behind the wrapper", ok, "" if ok else "deep arm changed")
     # ---- Pipeline
